@@ -420,8 +420,18 @@ def plan_c08(tier, seed):
     jobs.append(with_delay_fallback({"id": "C08-joined-port-two-substreams", "prop": "C08", "kind": "comp", "mode": "dpor", "budget": budget(tier, 30, 300), "oracles": [], "events_dep": False, "force_all": -1,
                                      "args": {"comp": "joinorder", "buf": "1"}}, 1))
     jobs.extend(mem_jobs("C08", o, tier, [("g2", 2, 2), ("g5b", 1, 2)] if tier == "quick" else [("g2", 2, 2), ("g5b", 1, 2), ("g3", 2, 2), ("g2", 3, 2)], extra="recorder"))
-    return {"level": "model_checking", "native": True, "race_too": True, "stages": [lambda ctx, prev: jobs],
-            "rule": "every Mazurkiewicz trace (task completion order is just scheduling); a recorder process reads the observed out-port; emitted sequence == reference arrival order (single upstream) / per-upstream subsequences keep their order (fan-in); streaming out-port: 2 items in flight through real FIFOs, order noted by a pass-through process (<= 1 delay); joined in-port fed with two sub-stream carriers closed in either order; memory-level pass: some scenarios again on the race-instrumented build, where map operations and accesses to mutable struct fields are scheduling points too",
+    # environment deviation: ONE file-system operation answers with an error (a lagging / failing file system), for
+    # every operation of the run: the program may stop, but whatever it emits is in arrival order
+    # a lagging file system: ONE look at an existing final output of p answers "no such file" (the n-th such look),
+    # under every schedule: the program may stop, but whatever it emits is in arrival order
+    for nth in (1, 2, 3):
+        j = wf("C08", "g2", 2, 1, 2, oracles=["nohang", "c08"], tier=tier, events_dep=False, extra="recorder", id=f"C08-g2-i2-m2-stat-lag-{nth}")
+        j["stat_fault"] = {"suffix": ".p", "nth": nth}
+        j.pop("_native", None)
+        jobs.append(with_delay_fallback(j, 1))
+    iof = opfault_stages("C08", ["nohang", "c08"], tier, [("g2", 2, 2, "func", "recorder"), ("g2", 3, 2, "cmd", "recorder")])
+    return {"level": "model_checking", "native": True, "race_too": True, "stages": [lambda ctx, prev: jobs] + iof,
+            "rule": "(+ single injected I/O error at every file-system operation of two scenarios; + a lagging file system: the n-th look at an existing output answers ENOENT, n <= 3, every schedule) every Mazurkiewicz trace (task completion order is just scheduling); a recorder process reads the observed out-port; emitted sequence == reference arrival order (single upstream) / per-upstream subsequences keep their order (fan-in); streaming out-port: 2 items in flight through real FIFOs, order noted by a pass-through process (<= 1 delay); joined in-port fed with two sub-stream carriers closed in either order; memory-level pass: some scenarios again on the race-instrumented build, where map operations and accesses to mutable struct fields are scheduling points too",
             "assumptions": BASE_ASSUMPTIONS}
 
 
